@@ -29,8 +29,7 @@ THEOREMS = ["C15_scalar_broadcasts", "C15_sequence_zips", "C15_wrong_length_rais
             "C15_add_keeps_order_and_parent", "C15_type_guard", "C15_index_lookup", "C15_slice_lookup_partial",
             "C15_unique_name_lookup", "C15_history_invariant",
             "C15_membership_changes_only_by_add_or_member_list", "C15_observe_once",
-            "C15_observe_each_member_exactly_once_in_histories",
-            "C15_bolometer_slice_refuted"]
+            "C15_observe_each_member_exactly_once_in_histories"]
 
 HEADER = ("Require Import Cherab.Common.Qx.\nFrom Coq Require Import String.\n"
           "Require Import Cherab.Model.C15_Groups Cherab.Model.C15_Table Cherab.Model.C15_Check.\n"
@@ -863,7 +862,7 @@ def run(ctx):
         ctx.violation(f["key"], "%s.%s: %s" % (f["class"], f["where"], f["claim"]), f, found=True)
     unknown = [f for f in fails if f["key"] not in ctx.known]
     # ---- (X) correspondence -----------------------------------------------------------------------
-    n_cases = 720 if quick else 9000
+    n_cases = 630 if quick else 9000
     max_ops = 9 if quick else 14
     rows_of = dict(table)
     cases = []
